@@ -50,6 +50,7 @@ CHECKS = {
                 "the estimate_cn decision table (user structure verbatim, unknown names rejected, two/one default copies). Ties on every run: captured "
                 "CBC model == CNInst.build, real return == foldCN(real yields), _filter_configs == filterConfigs, estimate_cn decisions == cnDecision; "
                 "plus an exhaustive spec-level oracle over all admissible internal assignments.",
+        "text_more": "Through genotype(): the structure is estimated with a copy-number capable profile also after an exome run of the same gene in the same process. ",
         "design_ref": "DESIGN.md section 10.2-10.3 (as built), section 4 (C03) (plan)",
         "note": "Global optimality and superset-completeness are C05's Run theorems applied to this model plus the exhaustive oracle; the exome/VCF "
                 "profile dispatch of genotype.py is covered by C19/C16 ties.",
@@ -112,6 +113,7 @@ CHECKS = {
                 "(incl. failing genes) and fresh interpreters under several PYTHONHASHSEED values give byte-identical output; sibling "
                 "independence of refinement probed on the real estimate_minor. Three genuine defects repaired by fix: commits (accessor aliasing, "
                 "filter closing over the loop variable, hash-seed dependent tie-breaker); pooled candidates across siblings is a known finding.",
+        "text_more": "candidate_order_canonical (flag MINOR_CANDIDATES_SORTED regenerated): the pooled candidates reach the model in one order; the harness compares every order of candidate sets incl. structures of equal copy number and different layout; the read-phase table is part of the world snapshots. Three further genuine defects repaired by fix: commits (candidate order, hash order of the keep selectors). ",
         "design_ref": "DESIGN.md section 10.2-10.3 (as built), section 4 (C14), 5 (plan)",
         "note": "PARTIAL: interpreter-level behaviour (hash seeds, module-level caches, solver determinism of CBC) is runtime; it is exhibited "
                 "by the subprocess runs, not by a theorem. The world theorem covers the modelled operations only; un-modelled code is covered "
@@ -128,6 +130,7 @@ CHECKS = {
                 "the outcome (error, empty simple line, pseudogene-only => whole-gene deletion). A genuine defect (guard skipped for user-supplied "
                 "structures) was repaired by a fix: commit; a minor one (missing simple line for errors raised while loading the sample) is a "
                 "known finding.",
+        "text_more": "History runs (a well-covered file genotyped from the same path before), genes without a copy-number model, few copy-number regions and a simulated CYP2D6 whole-gene deletion sample are part of the tie. ",
         "design_ref": "DESIGN.md section 10.2-10.3 (as built), section 4 (C19), 5 (plan)",
         "note": "The pseudogene-only => deletion clause is decided by the correspondence run (real CN stage on simulated depth) and C03's "
                 "theorems, not by a dedicated optimality theorem. pysam/indelpost trusted.",
@@ -145,6 +148,7 @@ CHECKS = {
                 "repair both sides are non-empty when two or more items were placed. Tie: real estimate_diplotype and "
                 "get_major_diplotype vs the model on multisets of 0-6 copies in all production orders (toy, CYP2D6, CYP2A6, CYP2C19, GSTM1, "
                 "generated genes), get_major_name vs majorName, natsort's key vs natKey on every name; property oracle on every real output.",
+        "text_more": "Oracle clauses: natural order of haplotypes and of the alleles inside them; the deletion allele itself may be among the called copies. ",
         "design_ref": "DESIGN.md section 10.2-10.3 (as built), section 4 (C11) (plan)",
         "note": "The partition clause is proved end to end under the hypothesis that a catalogued tandem pairs two different allele numbers (for "
                 "a pair (x, x) the code deletes two list entries per emitted pair or raises IndexError; no shipped database has one). Tandem "
@@ -161,6 +165,7 @@ CHECKS = {
                 "structures, perturbed stage scores, injected empty stages) recorded by wrapping the stage functions from outside and replayed "
                 "through the model, stage by stage; independent Python oracle recomputes the combined scores, the within-gap set and the chain "
                 "consistency (structure <-> alleles <-> minors <-> diplotype) of every reported solution.",
+        "text_more": "The oracle explores structures the copy-number stage returned but the major stage never saw: none of their major solutions may lie within the gap. ",
         "design_ref": "DESIGN.md section 10.2-10.3 (as built), section 4 (C10) (plan)",
         "note": "Chain consistency is checked by the oracle on every reported solution and follows from C02 major_csat / C04 at model level; "
                 "float truncation int(1000*score) is compared exactly unless the float and exact truncations differ (counted as hazard).",
@@ -224,6 +229,7 @@ CHECKS = {
                 "with the real Gene, and the driver evaluates the haplotype equation and the reference-allele hypotheses on every variant "
                 "(shipped: quick 7 genes x 2 builds, thorough all 38 x 2; generated: random sequence, all kinds, both strands, alignment strings "
                 "with I/D); independent sequence-level Python oracle on the real Gene object.",
+        "text_more": "Inferred amino-acid effects of uncatalogued substitutions are compared with an independent translation of the coding exons and across builds; multi-base variants are placed at and beside the gaps of the RefSeq-to-genome alignment. ",
         "design_ref": "DESIGN.md section 10.2-10.3 (as built), section 4 (C08) (plan)",
         "note": "Multi-block mappings and dotted multi-substitutions are decided by evaluation per variant (finite, exhaustive for shipped "
                 "databases in the thorough tier) rather than by the list-level theorems. Insertion anchoring handed to indelpost/long-read "
@@ -261,6 +267,7 @@ CHECKS = {
                 "Ties on every solve_minor_model call of the real estimate_minor: captured CBC model == MinorInst.build; returned alleles == "
                 "readOut of the solver's binaries; returned score == reported objective; oracle with the property's clauses and exhaustive "
                 "optimality on small instances.",
+        "text_more": "Two genuine defects repaired by fix: commits (reference row at multi-allelic sites, candidate order). The clause 'every carried variant has supporting filtered reads' is decided on instances with a variant between the filter thresholds of the structure's copy count and of the copies its site really has. ",
         "design_ref": "DESIGN.md section 10.2-10.3 (as built), section 4 (C04), 3.2 (plan)",
         "note": "Optimality = C05 Run theorems + exhaustive oracle on small instances (tie-breaker epsilon <= minor_add*#selectors/1e6 allowed); "
                 "'one variant per site' after the homozygous post-processing is checked by the oracle on every real output (no violation seen), "
@@ -277,6 +284,7 @@ CHECKS = {
                 "evidence estimate_minor hands to solve_minor_model (intercepted) vs the model on tables mixing qualifying and sub-threshold "
                 "observations under varied, asymmetric thresholds. Oracle: metamorphic pairs through the real estimate_major/estimate_minor give "
                 "identical solutions and scores; every called core/novel/carried variant meets the count and fraction thresholds on qualifying reads.",
+        "text_more": "Refinement with novel=True, variants below min_coverage at shallow sites and variants between the filter thresholds of low-copy sites are part of the metamorphic runs. ",
         "design_ref": "DESIGN.md section 10.2-10.3 (as built), section 4 (C15) (plan)",
         "note": "Invariance of the stages under low-quality reads is proved for the filter and carried to the stages by the metamorphic "
                 "correspondence (stages read evidence only through the filtered coverage - checked by the C02/C04 structural ties); the phase "
@@ -294,6 +302,7 @@ CHECKS = {
                 "records) == the model. Oracle: support 10 x copies and reference 20 - 10 x copies per catalogued variant, default 20 elsewhere, "
                 "no failed run, heterozygous allele => reference/allele through genotype(). One genuine defect (crash on ignored shapes) was "
                 "repaired by a fix: commit; insertions, multi-nucleotide substitutions and deletion-insertions not becoming support are known findings.",
+        "text_more": "Multi-sample files with the carrier at any column are genotyped through genotype() with vcf_sample_idx. ",
         "design_ref": "DESIGN.md section 10.2-10.3 (as built), section 4 (C16), 5 (plan)",
         "note": "Seven known-finding signatures (insertion / MNP one-record / MNP adjacent / delins and their genotype-level consequences). "
                 "Pharmacoscan input not modelled.",
@@ -323,6 +332,7 @@ CHECKS = {
                 "shipped hg19/hg38 databases and generated opposite-strand databases with RefSeq-level evidence transported to both builds. "
                 "Oracle: the property itself - equal major/minor solutions, scores and added/lost variants in RefSeq terms at stage level, and "
                 "equal full-pipeline results for alignments expressed against each build (reads mirrored through the coordinate maps).",
+        "text_more": "Oracle additions: region of every RefSeq base equal in both builds (generated databases), VCF pairs with REF/ALT exchanged in one build, homozygous insertion alleles through the alignment pipeline. ",
         "design_ref": "DESIGN.md section 10.2-10.3 (as built), section 4 (C13) (plan)",
         "note": "PARTIAL: the equivariance premise (models are renamings) is validated per instance (translation validation), not proved for the "
                 "builders in general; exact score equality of the minor stage holds up to the order-dependent tie-breaker. Evidence transport "
